@@ -1,7 +1,7 @@
 (* C02: the Fun-to-Core translation preserves meaning and never captures variables.
    Only statements here; models in Model/Fun2Core.v, semantics in Sem/FunSem.v and Sem/CoreSem.v,
    proofs in Proof/Fun2CoreProof.v. *)
-From Coq Require Import List ZArith String Bool.
+From Coq Require Import List ZArith NArith String Bool.
 From SCC Require Import Lang.FunSyn Lang.CoreSyn Sem.AxSem Sem.CoreSem Sem.FunSem Model.Fun2Core Proof.Fun2CoreProof Proof.Fun2CoreSim.
 Import ListNotations.
 
@@ -17,11 +17,11 @@ Definition fun2core_correct_statement : Prop :=
     exists m, run_core m c args = o.
 
 (* the guarded form that is expected to hold: binders of each definition pairwise distinct and
-   distinct from its parameters ([barendregt]), and every goto annotated with its label's type *)
+   distinct from its parameters ([barendregt]) *)
 Definition fun2core_correct_guarded_statement : Prop :=
   forall (p : fcprog) (c : cprog) (args : list Z) (n : nat) (o : obs),
     annotated_fcprog p = true -> effect_sequenced p = true ->
-    barendregt p = true -> goto_type_mismatch_prog p = false ->
+    barendregt p = true ->
     compile_prog p = Ok c ->
     run_fun n p args = o -> defined o = true ->
     exists m, run_core m c args = o.
@@ -40,22 +40,32 @@ Theorem C02_fun2core_capture_refuted :
 Proof. exact fun2core_capture_refuted_lemma. Qed.
 Print Assumptions C02_fun2core_capture_refuted.
 
-(* Second counterexample, independent of capture (the syntactic capture detector is silent on it): a
-   goto whose annotation is not its label's type (the checker annotates the type expected of the goto
-   expression, fun2core uses it for the target covariable) makes typed_free_vars miss the binder; the
-   lifted definition gets a spurious parameter and the translated program is NOT CLOSED
-   (corpus/fun/c02_unbound_covar.sc: `share_h_0(a0, k, x0)` with no k in scope; natively a garbage
-   register is passed).  The Core machine is stuck on the unbound covariable. *)
-Theorem C02_fun2core_goto_unbound_refuted :
+(* REPAIRED defect (fix commit 126604b of /repo), kept as regression statements.  Before the fix the
+   target covariable of `goto k (t)` was typed with the annotation of the goto expression instead of
+   k's type; typed_free_vars then missed k's binder, a lifted continuation got a spurious parameter
+   and the translated program was NOT CLOSED.  [compile_prog_before_fix] is the model with the old
+   goto rule (only used here). *)
+Theorem C02_fun2core_goto_unbound_before_fix :
   exists (p : fcprog) (args : list Z) (c : cprog) (n : nat),
     annotated_fcprog p = true /\ effect_sequenced p = true /\ shadowing_risk_prog p = false /\
     goto_type_mismatch_prog p = true /\
-    compile_prog p = Ok c /\
+    compile_prog_before_fix p = Ok c /\
     cprog_closed c = false /\
     defined (run_fun n p args) = true /\
     run_fun n p args <> run_core n c args.
-Proof. exact fun2core_goto_unbound_refuted_lemma. Qed.
-Print Assumptions C02_fun2core_goto_unbound_refuted.
+Proof. exact fun2core_goto_unbound_before_fix_lemma. Qed.
+Print Assumptions C02_fun2core_goto_unbound_before_fix.
+
+(* ... and the CURRENT translation (the model follows the repaired code; model = Rust is checked on
+   every run, this witness included) turns the same program - corpus/fun/c02_unbound_covar.sc - into a
+   closed Core program with the source's behaviour. *)
+Theorem C02_goto_witness_fixed :
+  compile_prog goto_witness = Ok (compiled_or_empty goto_witness) /\
+  cprog_closed (compiled_or_empty goto_witness) = true /\
+  run_core 200 (compiled_or_empty goto_witness) [] = run_fun 200 goto_witness [] /\
+  run_fun 200 goto_witness [] = ([(true, 4%Z)], OExit 0%Z).
+Proof. exact goto_witness_fixed_lemma. Qed.
+Print Assumptions C02_goto_witness_fixed.
 
 (* ---------- generated names are fresh ---------- *)
 (* fresh_name(used, base) returns a name that is not in `used` and inserts exactly that name
@@ -71,8 +81,8 @@ Print Assumptions C02_fresh_name_fresh.
    none of which was in the set before.  used_vars starts as the parameters plus all binders of the
    definition, used_labels as all definition names: generated names never coincide with user-chosen
    ones or with each other. *)
-Theorem C02_translation_names_fresh : forall codata cur t cont st s st',
-  wc codata cur t cont st = Ok (s, st') ->
+Theorem C02_translation_names_fresh : forall codata cur lg t cont st s st',
+  wc codata cur lg t cont st = Ok (s, st') ->
   (exists gv, st_used_vars st' = gv ++ st_used_vars st /\ NoDup gv /\ forall x, In x gv -> ~ In x (st_used_vars st)) /\
   (exists gl, st_used_labels st' = gl ++ st_used_labels st /\ NoDup gl /\ forall x, In x gl -> ~ In x (st_used_labels st)).
 Proof. exact translation_names_fresh. Qed.
@@ -106,13 +116,13 @@ Print Assumptions C02_compile_prog_def_names_distinct.
    its `compile` translation against the continuation, whatever the continuation is; in particular a
    variable is translated to that variable and a literal to that literal (no administrative redex) *)
 Theorem C02_wc_expression_is_cut : forall e, iexp e = true ->
-  forall codata cur cont st sr st', wc codata cur e cont st = Ok (sr, st') ->
-  exists ce, (forall ty, cmp codata cur e ty st = Ok (ce, st')) /\ sr = CCut ce CI64 cont.
+  forall codata cur lg cont st sr st', wc codata cur lg e cont st = Ok (sr, st') ->
+  exists ce, (forall ty, cmp codata cur lg e ty st = Ok (ce, st')) /\ sr = CCut ce CI64 cont.
 Proof. exact wc_iexp. Qed.
 Print Assumptions C02_wc_expression_is_cut.
 
 (* the hygiene statement at full strength, NOT proved (and false without the guard, see the capture
-   witness): under [barendregt] and correct goto annotations the Core machine on the translated
+   witness): under [barendregt] the Core machine on the translated
    program reproduces the source - this is fun2core_correct_guarded_statement above; its name-level
    reading "every occurrence of a source variable, covariable or label in compile_prog p is bound by
    the translation of its source binder" follows from it for all variables that matter
@@ -141,3 +151,35 @@ Theorem C02_fun2core_correct_partial :
     exists m, run_core m c args = o.
 Proof. exact fun2core_correct_partial_lemma. Qed.
 Print Assumptions C02_fun2core_correct_partial.
+
+(* ---------- for property C19 (output size): continuations are shared, not duplicated ---------- *)
+(* `if` with a continuation that is not a leaf: the continuation is lifted ONCE by `share` (it sits in
+   the lifted definition d, whose body is at most 2 nodes larger) and both branches are translated
+   with the same small continuation k = mu~ x. share_f_n(free variables), whose size depends only on
+   the number of free variables; the size of the result is 1 + operands + the two branches. *)
+Theorem C02_fun2core_ifc_shares_continuation : forall cur s ca cb wt we cont st r st',
+  cont_is_small cont = false ->
+  wc_ifc cur s ca cb wt we cont st = Ok (r, st') ->
+  exists k st1 d a b t e st2 st3,
+    share cur cont st = Ok (k, st1) /\
+    st_lifted st1 = d :: st_lifted st /\
+    (size_cstmt (cdbody d) <= size_cterm cont + 2)%N /\
+    (size_cterm k = 2 + N.of_nat (List.length (cdctx d)))%N /\
+    wt k st2 = Ok (t, st3) /\ we k st3 = Ok (e, st') /\
+    r = CIfC (sort_of s) a b t e /\
+    (size_cstmt r = 1 + size_cterm a + match b with Some b' => size_cterm b' | None => 0 end
+                    + size_cstmt t + size_cstmt e)%N.
+Proof. exact fun2core_ifc_shares_continuation. Qed.
+Print Assumptions C02_fun2core_ifc_shares_continuation.
+
+Theorem C02_fun2core_case_shares_continuation : forall cur wscrut sty n ccls cont st r st',
+  cont_is_small cont = false -> (2 <= n)%nat ->
+  wc_case cur wscrut sty n ccls cont st = Ok (r, st') ->
+  exists k st1 d,
+    share cur cont st = Ok (k, st1) /\
+    st_lifted st1 = d :: st_lifted st /\
+    (size_cstmt (cdbody d) <= size_cterm cont + 2)%N /\
+    (size_cterm k = 2 + N.of_nat (List.length (cdctx d)))%N /\
+    exists cls st2 ty, ccls k st1 = Ok (cls, st2) /\ wscrut (CXCase CCns cls ty) st2 = Ok (r, st').
+Proof. exact fun2core_case_shares_continuation. Qed.
+Print Assumptions C02_fun2core_case_shares_continuation.
